@@ -10,24 +10,22 @@ open NmVerif
 /-! ### Dom for a whole index (any rank, any position of integers and of the ellipsis) -/
 
 def domEntry (n : Nat) : Entry → Bool
-  | .int k => decide (-(n : Int) ≤ k) && decide (k < n) && decide (n < 9223372036854775808)
-  | .range a b c => domRange n a b c
-  | .range2 a b => domRange n a b none
+  | .int k => decide (-(n : Int) ≤ k) && decide (k < n) && decide (n < 4611686018427387904)
+  | .range _ _ c => decide (stepVal c ≠ 0) && decide (n < 4611686018427387904)
+  | .range2 _ _ => decide (n < 4611686018427387904)
   | .ellipsis => false
 
-/-- entries against axes: every axis is addressed (by an entry or by the ellipsis), every entry has an axis and lies in
-    the per-axis Dom; an ellipsis that takes no axis is not in last position (the packed functions read `shape[dim]`) -/
+/-- entries against axes: every entry has an axis (the ellipsis takes `nEll` of them), integers lie in `[-n, n)`,
+    steps are non-zero, extents stay below 2^62; axes left over at the end are allowed (kept whole) -/
 def domGo (nEll : Nat) : List Nat → List Entry → Bool
-  | [], [] => true
-  | _ :: _, [] => false
-  | [], _ :: _ => false
+  | _, [] => true
   | sh, .ellipsis :: es => decide (nEll ≤ sh.length) && domGo nEll (sh.drop nEll) es
+  | [], _ :: _ => false
   | n :: t, e :: es => domEntry n e && domGo nEll t es
 
-/-- `Dom`: at most one ellipsis; without ellipsis as many entries as axes -/
+/-- `Dom` = every valid basic index: at most one ellipsis, no more entries than axes -/
 def domEntries (shape : List Nat) (es : List Entry) : Bool :=
   decide (numEllipsis es ≤ 1) && decide (es.length - numEllipsis es ≤ shape.length) &&
-  (decide (numEllipsis es = 1) || decide (es.length = shape.length)) &&
   domGo (shape.length - (es.length - 1)) shape es
 
 /-! ### list facts -/
@@ -75,26 +73,6 @@ theorem specIdx_full (s : List Nat) (rest : List AxisSel) (d : List Nat) (hd : s
       rw [ih ys (by simpa using hd)]
       cases specIdx rest (List.drop xs.length ys) <;> simp
 
-theorem stepVal_ne_zero_of_dom {n : Nat} {a b c : Option Int} (h : domRange n a b c = true) : stepVal c ≠ 0 := by
-  obtain ⟨hbase, _⟩ := (domRange_iff n a b c).1 h
-  rcases c with _ | c <;> dom_unpack2 hbase <;> simp only [stepVal] <;> omega
-
-theorem intIndex_dom (n : Nat) (k : Int) (h1 : -(n : Int) ≤ k) (h2 : k < n) (h3 : n < 9223372036854775808) :
-    intIndex n k = (if k < 0 then k + n else k) ∧ 0 ≤ intIndex n k ∧ intIndex n k < n := by
-  unfold intIndex u64 absI
-  split_ifs <;> omega
-
-/-- the goal of the per-entry step, for a range entry -/
-theorem range_entry_dom (n : Nat) (a b c : Option Int) (h : domRange n a b c = true) :
-    ∃ l f k, pyAxis n a b c = some (l, f, k) ∧ sliceLen n a b c = some (l : Int) ∧
-      ∀ j : Nat, j < l → computeIndex n a b c j = f + j * k ∧ 0 ≤ f + j * k ∧ f + j * k < n := by
-  have hk := stepVal_ne_zero_of_dom h
-  obtain ⟨hl, hi⟩ := range_dom n a b c h
-  refine ⟨_, _, _, pyAxis_eq n a b c hk, ?_, ?_⟩
-  · rw [hl, Int.toNat_of_nonneg (pyLen_nonneg _ _ _ hk)]
-  · intro j hj
-    exact ⟨hi j hj, pyAxis_inBounds n a b c hk j hj⟩
-
 /-- what the induction carries for a shape suffix `sh` and the remaining entries `es` -/
 def GoOk (nEll : Nat) (sh : List Nat) (es : List Entry) : Prop :=
   ∃ sels, specGo nEll sh es = some sels ∧ shapeGo nEll sh es = some (specShape sels) ∧
@@ -112,8 +90,8 @@ theorem numInt_cons_range2 (a b : Option Int) (es : List Entry) : numInt (.range
 
 theorem go_range_step (nEll n : Nat) (t : List Nat) (es : List Entry) (e : Entry) (a b c : Option Int)
     (he : e = .range a b c ∨ (e = .range2 a b ∧ c = none))
-    (hd : domRange n a b c = true) (ih : GoOk nEll t es) : GoOk nEll (n :: t) (e :: es) := by
-  obtain ⟨l, f, k, hpy, hlen, hidx⟩ := range_entry_dom n a b c hd
+    (hn : n < 4611686018427387904) (hk : stepVal c ≠ 0) (ih : GoOk nEll t es) : GoOk nEll (n :: t) (e :: es) := by
+  obtain ⟨l, f, k, hpy, hlen, hidx⟩ := range_entry_all n a b c (by omega) hk
   obtain ⟨sels, hs, hsh, hlenl, hi⟩ := ih
   have hspec : specEntry n e = some (.walk l f k) := by
     rcases he with rfl | ⟨rfl, rfl⟩ <;> simp [specEntry, hpy]
@@ -140,52 +118,55 @@ theorem go_range_step (nEll n : Nat) (t : List Nat) (es : List Entry) (e : Entry
         rcases he with rfl | ⟨rfl, rfl⟩ <;> simp [idxGo, h2, this]
       · simp only [InShape]; exact ⟨by omega, h3⟩
 
+theorem specIdx_full_all (s : List Nat) (d : List Nat) (hd : InShape d s) : specIdx (s.map fullSel) d = some d := by
+  have h := specIdx_full s [] d (by rw [hd.length_eq]; exact Nat.le_refl _)
+  rw [List.append_nil] at h
+  rw [h, ← hd.length_eq, List.drop_length, List.take_length]
+  simp [specIdx]
+
 theorem go_dom (nEll : Nat) : ∀ (es : List Entry) (sh : List Nat), domGo nEll sh es = true → GoOk nEll sh es := by
   intro es
   induction es with
   | nil =>
-    intro sh h
-    cases sh with
-    | cons n t => simp [domGo] at h
-    | nil =>
-      refine ⟨[], by simp [specGo], by simp [shapeGo, specShape], by simp [specShape, numInt], ?_⟩
-      intro d hd
-      cases d with
-      | nil => exact ⟨[], by simp [specIdx], by simp [idxGo], by simp [InShape]⟩
-      | cons _ _ => simp [specShape, InShape] at hd
+    intro sh _
+    refine ⟨sh.map fullSel, by simp [specGo], by simp [shapeGo, specShape_full], by simp [specShape_full, numInt], ?_⟩
+    intro d hd
+    rw [specShape_full] at hd
+    refine ⟨d, specIdx_full_all sh d hd, ?_, hd⟩
+    simp [idxGo, ← hd.length_eq]
   | cons e es ih =>
     intro sh h
-    cases sh with
-    | nil => simp [domGo] at h
-    | cons n t =>
-      cases e with
-      | ellipsis =>
-        simp only [domGo, Bool.and_eq_true, decide_eq_true_eq] at h
-        obtain ⟨hle, hrest⟩ := h
-        obtain ⟨sels, hs, hsh, hlenl, hi⟩ := ih _ hrest
-        have hl : (n :: t).length = t.length + 1 := rfl
-        have hdrop : ((n :: t).drop nEll).length = (n :: t).length - nEll := List.length_drop
-        have htl : ((n :: t).take nEll).length = nEll := by rw [List.length_take]; omega
-        refine ⟨((n :: t).take nEll).map fullSel ++ sels, ?_, ?_, ?_, ?_⟩
-        · simp only [specGo, hle, if_true, hs, Option.map_some]
-        · simp only [shapeGo, hle, if_true, hsh, Option.map_some, specShape_append, specShape_full]
-        · rw [specShape_append, specShape_full, numInt_cons_ellipsis, List.length_append, htl]
+    cases e with
+    | ellipsis =>
+      have h' : nEll ≤ sh.length ∧ domGo nEll (sh.drop nEll) es = true := by
+        cases sh <;> simpa [domGo] using h
+      obtain ⟨hle, hrest⟩ := h'
+      obtain ⟨sels, hs, hsh, hlenl, hi⟩ := ih _ hrest
+      have hdrop : (sh.drop nEll).length = sh.length - nEll := List.length_drop
+      have htl : (sh.take nEll).length = nEll := by rw [List.length_take]; omega
+      refine ⟨(sh.take nEll).map fullSel ++ sels, ?_, ?_, ?_, ?_⟩
+      · cases sh <;> simp only [specGo, hle, if_true, hs, Option.map_some]
+      · cases sh <;> simp only [shapeGo, hle, if_true, hsh, Option.map_some, specShape_append, specShape_full]
+      · rw [specShape_append, specShape_full, numInt_cons_ellipsis, List.length_append, htl]
+        omega
+      · intro d hdin
+        rw [specShape_append, specShape_full] at hdin
+        obtain ⟨hd1, hd2⟩ := inShape_split hdin
+        rw [htl] at hd1 hd2
+        obtain ⟨i', h1, h2, h3⟩ := hi _ hd2
+        have hdl : nEll ≤ d.length := by
+          have := hd1.length_eq
+          simp only [List.length_take] at this
           omega
-        · intro d hdin
-          rw [specShape_append, specShape_full] at hdin
-          obtain ⟨hd1, hd2⟩ := inShape_split hdin
-          rw [htl] at hd1 hd2
-          obtain ⟨i', h1, h2, h3⟩ := hi _ hd2
-          have hdl : nEll ≤ d.length := by
-            have := hd1.length_eq
-            simp only [List.length_take] at this
-            omega
-          refine ⟨d.take nEll ++ i', ?_, ?_, ?_⟩
-          · rw [specIdx_full _ _ _ (by rw [List.length_take]; omega), htl, h1]; rfl
-          · simp only [idxGo, hle, hdl, and_self, if_true, h2, Option.map_some]
-          · have := inShape_append hd1 h3
-            rwa [List.take_append_drop] at this
-      | int k =>
+        refine ⟨d.take nEll ++ i', ?_, ?_, ?_⟩
+        · rw [specIdx_full _ _ _ (by rw [List.length_take]; omega), htl, h1]; rfl
+        · cases sh <;> simp only [idxGo, hle, hdl, and_self, if_true, h2, Option.map_some]
+        · have := inShape_append hd1 h3
+          rwa [List.take_append_drop] at this
+    | int k =>
+      cases sh with
+      | nil => simp [domGo] at h
+      | cons n t =>
         simp only [domGo, domEntry, Bool.and_eq_true, decide_eq_true_eq] at h
         obtain ⟨⟨⟨hk1, hk2⟩, hn⟩, hrest⟩ := h
         obtain ⟨sels, hs, hsh, hlenl, hi⟩ := ih _ hrest
@@ -201,12 +182,18 @@ theorem go_dom (nEll : Nat) : ∀ (es : List Entry) (sh : List Nat), domGo nEll 
           · simp [specIdx, h1]
           · simp [idxGo, h2, hv]
           · simp only [InShape]; exact ⟨by rw [← hv]; omega, h3⟩
-      | range a b c =>
-        simp only [domGo, domEntry, Bool.and_eq_true] at h
-        exact go_range_step nEll n t es _ a b c (Or.inl rfl) h.1 (ih _ h.2)
-      | range2 a b =>
-        simp only [domGo, domEntry, Bool.and_eq_true] at h
-        exact go_range_step nEll n t es _ a b none (Or.inr ⟨rfl, rfl⟩) h.1 (ih _ h.2)
+    | range a b c =>
+      cases sh with
+      | nil => simp [domGo] at h
+      | cons n t =>
+        simp only [domGo, domEntry, Bool.and_eq_true, decide_eq_true_eq] at h
+        exact go_range_step nEll n t es _ a b c (Or.inl rfl) h.1.2 h.1.1 (ih _ h.2)
+    | range2 a b =>
+      cases sh with
+      | nil => simp [domGo] at h
+      | cons n t =>
+        simp only [domGo, domEntry, Bool.and_eq_true, decide_eq_true_eq] at h
+        exact go_range_step nEll n t es _ a b none (Or.inr ⟨rfl, rfl⟩) h.1 (by simp [stepVal]) (ih _ h.2)
 
 theorem numEllipsis_cons (e : Entry) (es : List Entry) :
     numEllipsis (e :: es) = numEllipsis es + (if e.isEllipsis then 1 else 0) := by
@@ -233,24 +220,22 @@ theorem padZeros_exact (l : List Nat) (n : Nat) (h : l.length = n) : padZeros n 
   rw [if_pos (by omega)]
   simp [h]
 
-/-- MODEL = SPEC on Dom, packed encoding, any rank, any position of integers and of the ellipsis -/
+/-- MODEL = SPEC for every valid basic index, packed encoding, any rank, any position of integers and of the ellipsis -/
 theorem slice_dom (shape : List Nat) (es : List Entry) (h : domEntries shape es = true) :
     ∃ sels, specSlice shape es = some sels ∧ shapeSlice shape es = some (specShape sels) ∧
       ∀ d, InShape d (specShape sels) →
         ∃ i, specIdx sels d = some i ∧ sliceIdx shape es d = some i ∧ InShape i shape := by
-  simp only [domEntries, Bool.and_eq_true, Bool.or_eq_true, decide_eq_true_eq] at h
-  obtain ⟨⟨⟨h1, h2⟩, h3⟩, h4⟩ := h
+  simp only [domEntries, Bool.and_eq_true, decide_eq_true_eq] at h
+  obtain ⟨⟨h1, h2⟩, h4⟩ := h
   obtain ⟨sels, hs, hsh, hlen, hi⟩ := go_dom _ es shape h4
   refine ⟨sels, ?_, ?_, ?_⟩
   · unfold specSlice
     simp only
     rw [if_neg (by omega), ← hs]
-    rcases h3 with h3 | h3
-    · rw [h3]
-    · by_cases h0 : numEllipsis es = 0
-      · exact specGo_noEllipsis _ _ es shape h0
-      · have : numEllipsis es = 1 := by omega
-        rw [this]
+    by_cases h0 : numEllipsis es = 0
+    · exact specGo_noEllipsis _ _ es shape h0
+    · have : numEllipsis es = 1 := by omega
+      rw [this]
   · unfold shapeSlice
     simp only
     rw [if_neg (by omega), if_neg (by omega), hsh]
